@@ -1,7 +1,7 @@
 '''C12 - a rendered report shows a failure mark exactly for failing results.'''
 import ast
 
-from ..rules import marks
+from ..rules import marks, reportfs
 from ..astutil import txt, call_name
 from ..mutate import (Variant, edit_module, find_func, replace_first,
                       remove_stmt, insert_stmt, parse_stmts, parse_expr)
@@ -35,6 +35,9 @@ table_repr representer.
 HL-SOURCE - the non-constant highlights of every table built by a
 representer (directly or through a helper) depend on data recorded by the
 result (anything under `result.` but `result.test`), not only on the inputs.
+HL-PER-DS - no list of flag columns is built by repeating one non-constant
+array for all the datasets. CLEAR-COMPLETE - every attribute the formatting methods of Rst accumulate is
+reset by Rst.clear() (a re-used Rst formats the second report like the first).
 Not decided: validity of the emitted reStructuredText and read-back of the
 cells (docutils is not run); which bins end up in a detailed table
 (value-level selection by np.where).
@@ -59,6 +62,8 @@ def check(ctx):
     ctx.run(marks.check_len_aligned)
     ctx.run(marks.check_row_select)
     ctx.run(marks.check_hl_source)
+    ctx.run(marks.check_hl_per_dataset)
+    ctx.run(reportfs.check_clear_complete)
 
 
 def variants(program):
@@ -117,6 +122,47 @@ def variants(program):
         return done
     add('twin-metadata-flags-through-a-local', 'twin', TREPR,
         metadata_flags_local)
+
+    def student_flags_repeated(tree):
+        # seed C12-r3-2: the combined verdict marks every dataset
+        fun = find_func(tree, 'repr_student_intermediate')
+        for idx_, node in enumerate(fun.body):
+            if isinstance(node, ast.For) and 'highlights' in txt(node) and \
+                    txt(node.iter) == 'oracles':
+                fun.body[idx_:idx_ + 1] = parse_stmts(
+                    'kos = np.logical_not(falses_ind[np.where('
+                    'falses_ind == 0)])\n'
+                    'highlights += [falses, falses, falses, kos] * '
+                    'len(oracles)')
+                return True
+        return False
+    add('seed-one-flag-column-repeated-for-every-dataset', 'mutant', TREPR,
+        student_flags_repeated, {'HL-PER-DS'})
+
+    def rst_keeps_pages(tree):
+        # seed C12-r3-1 (reduced): bookkeeping that survives clear()
+        init = find_func(tree, 'Rst.__init__')
+        init.body.append(parse_stmts('self.hl_pages = set()')[0])
+        fun = find_func(tree, 'Rst.format_report_rec')
+        fun.body.insert(1 if isinstance(fun.body[0], ast.Expr) else 0,
+                        parse_stmts('self.hl_pages.add(tree)')[0])
+        return True
+    add('seed-state-of-a-previous-report-survives-clear', 'mutant', RSTM,
+        rst_keeps_pages, {'CLEAR-COMPLETE'},
+        note='the second report formatted by the same Rst loses the role '
+             'declarations of the pages seen before')
+
+    def rst_keeps_pages_cleared(tree):
+        init = find_func(tree, 'Rst.__init__')
+        init.body.append(parse_stmts('self.hl_pages = set()')[0])
+        clear = find_func(tree, 'Rst.clear')
+        clear.body.append(parse_stmts('self.hl_pages.clear()')[0])
+        fun = find_func(tree, 'Rst.format_report_rec')
+        fun.body.insert(1 if isinstance(fun.body[0], ast.Expr) else 0,
+                        parse_stmts('self.hl_pages.add(tree)')[0])
+        return True
+    add('twin-page-bookkeeping-reset-by-clear', 'twin', RSTM,
+        rst_keeps_pages_cleared)
 
     def equal_not_negated(tree):
         fun = find_func(tree, 'repr_equal')
